@@ -24,6 +24,7 @@ from jsim.envs.base import Adapter
 
 class A(Adapter):
     name = "JobShop"
+    run_scale = 1
     mask_mode = "per_agent"
     terminate_on_invalid = True
     has_invalid_effect = True
